@@ -6,18 +6,26 @@ From DJC Require Import Lib.Base PostRender.Model.
 (* ====================================================================================== *)
 Lemma flat_cons A x r : flat A (x :: r) = flat_item A x ++ flat A r. Proof. reflexivity. Qed.
 Lemma flat_elem A t k : flat_item A (IElem t k) = Open t A :: flat [] k ++ [Close t]. Proof. reflexivity. Qed.
+Lemma flat_root A c b : flat_item A (IRoot c b) = inline (A ++ [c]) b. Proof. reflexivity. Qed.
 Lemma inline_cons A x r : inline A (x :: r) = inline_item A x ++ inline A r. Proof. reflexivity. Qed.
 Lemma inline_elem A t k : inline_item A (IElem t k) = Open t A :: inline [] k ++ [Close t]. Proof. reflexivity. Qed.
 Lemma inline_comp A c b : inline_item A (IComp c b) = inline (A ++ [c]) b. Proof. reflexivity. Qed.
+Lemma inline_root A c b : inline_item A (IRoot c b) = inline (A ++ [c]) b. Proof. reflexivity. Qed.
 Lemma inlT_cons A x r : inlT A (x :: r) = inlT_item A x ++ inlT A r. Proof. reflexivity. Qed.
 Lemma inlT_elem A t k : inlT_item A (IElem t k) = [HElem t A (inlT [] k)]. Proof. reflexivity. Qed.
 Lemma inlT_comp A c b : inlT_item A (IComp c b) = inlT (A ++ [c]) b. Proof. reflexivity. Qed.
+Lemma inlT_root A c b : inlT_item A (IRoot c b) = inlT (A ++ [c]) b. Proof. reflexivity. Qed.
 Lemma ids_cons x r : ids (x :: r) = ids_item x ++ ids r. Proof. reflexivity. Qed.
 Lemma ids_elem t k : ids_item (IElem t k) = ids k. Proof. reflexivity. Qed.
 Lemma ids_comp c b : ids_item (IComp c b) = c :: ids b. Proof. reflexivity. Qed.
+Lemma ids_root c b : ids_item (IRoot c b) = c :: ids b. Proof. reflexivity. Qed.
 Lemma ninst_cons x r : ninst (x :: r) = (ninst_item x + ninst r)%nat. Proof. reflexivity. Qed.
 Lemma ninst_elem t k : ninst_item (IElem t k) = ninst k. Proof. reflexivity. Qed.
 Lemma ninst_comp c b : ninst_item (IComp c b) = S (ninst b). Proof. reflexivity. Qed.
+Lemma ninst_root c b : ninst_item (IRoot c b) = S (ninst b). Proof. reflexivity. Qed.
+Lemma ndef_cons x r : ndef (x :: r) = (ndef_item x + ndef r)%nat. Proof. reflexivity. Qed.
+Lemma ndef_elem t k : ndef_item (IElem t k) = ndef k. Proof. reflexivity. Qed.
+Lemma ndef_comp c b : ndef_item (IComp c b) = S (ndef b). Proof. reflexivity. Qed.
 Lemma ph_attrs_cons A x r : ph_attrs A (x :: r) = ph_attrs_item A x ++ ph_attrs A r. Proof. reflexivity. Qed.
 Lemma ph_attrs_elem A t k : ph_attrs_item A (IElem t k) = ph_attrs [] k. Proof. reflexivity. Qed.
 Lemma ph_bodies_cons x r : ph_bodies (x :: r) = ph_bodies_item x ++ ph_bodies r. Proof. reflexivity. Qed.
@@ -26,6 +34,9 @@ Lemma outputs_cons c A x r : outputs c A (x :: r) = outputs_item c A x ++ output
 Lemma outputs_elem c A t k : outputs_item c A (IElem t k) = outputs c [] k. Proof. reflexivity. Qed.
 Lemma outputs_comp c A c' b :
   outputs_item c A (IComp c' b) = (if N.eqb c c' then [inlT_item A (IComp c' b)] else []) ++ outputs c (A ++ [c']) b.
+Proof. reflexivity. Qed.
+Lemma outputs_root c A c' b :
+  outputs_item c A (IRoot c' b) = (if N.eqb c c' then [inlT_item A (IRoot c' b)] else []) ++ outputs c (A ++ [c']) b.
 Proof. reflexivity. Qed.
 Lemma toks_cons x r : toks (x :: r) = toks_node x ++ toks r. Proof. reflexivity. Qed.
 Lemma toks_elem t a k : toks_node (HElem t a k) = Open t a :: toks k ++ [Close t]. Proof. reflexivity. Qed.
@@ -40,14 +51,29 @@ Fixpoint tsize_item (it : item) : nat :=
   | IElem _ kids => S ((fix go (l : list item) : nat := match l with [] => O | x :: r => tsize_item x + go r end) kids)
   | IText => 1
   | IComp _ body => S ((fix go (l : list item) : nat := match l with [] => O | x :: r => tsize_item x + go r end) body)
+  | IRoot _ body => S ((fix go (l : list item) : nat := match l with [] => O | x :: r => tsize_item x + go r end) body)
   end.
 Definition tsize (its : list item) : nat :=
   (fix go (l : list item) : nat := match l with [] => O | x :: r => tsize_item x + go r end) its.
 Lemma tsize_cons x r : tsize (x :: r) = (tsize_item x + tsize r)%nat. Proof. reflexivity. Qed.
 Lemma tsize_elem t k : tsize_item (IElem t k) = S (tsize k). Proof. reflexivity. Qed.
 Lemma tsize_comp c b : tsize_item (IComp c b) = S (tsize b). Proof. reflexivity. Qed.
+Lemma tsize_root c b : tsize_item (IRoot c b) = S (tsize b). Proof. reflexivity. Qed.
 Lemma tsize_item_pos x : (1 <= tsize_item x)%nat.
 Proof. destruct x; simpl; lia. Qed.
+
+Lemma ndef_le_ninst : forall n its, (tsize its <= n)%nat -> (ndef its <= ninst its)%nat.
+Proof.
+  induction n as [|n IH]; intros its Hs.
+  - destruct its as [|x r]; [simpl; lia|]. rewrite tsize_cons in Hs. pose proof (tsize_item_pos x). lia.
+  - destruct its as [|x r]; [simpl; lia|]. rewrite tsize_cons in Hs. pose proof (tsize_item_pos x) as Hp.
+    rewrite ndef_cons, ninst_cons. pose proof (IH r ltac:(lia)).
+    destruct x as [t k| |c b|c b].
+    + rewrite ndef_elem, ninst_elem. rewrite tsize_elem in Hs. pose proof (IH k ltac:(lia)). lia.
+    + simpl. lia.
+    + rewrite ndef_comp, ninst_comp. rewrite tsize_comp in Hs. pose proof (IH b ltac:(lia)). lia.
+    + rewrite ninst_root. simpl ndef_item. lia.
+Qed.
 
 (* ====================================================================================== *)
 (* 2. lists without duplicates, association lists                                          *)
@@ -136,8 +162,10 @@ Proof.
   intros He [H1 H2]. split; intros k Hk; [apply H1 | apply H2]; rewrite He; exact Hk.
 Qed.
 
+Definition teq {V} (t t' : list (N * V)) : Prop := forall k, alookup k t' = alookup k t.
+
 (* ====================================================================================== *)
-(* 3. shallow placeholders of a fragment                                                   *)
+(* 3. shallow placeholders of a fragment; serialised fragments                             *)
 (* ====================================================================================== *)
 Lemma ids_app a b : ids (a ++ b) = ids a ++ ids b.
 Proof. induction a as [|x a IH]; [reflexivity|]. simpl app. rewrite !ids_cons, IH. now rewrite app_assoc. Qed.
@@ -150,7 +178,7 @@ Proof.
     rewrite ph_attrs_cons, ph_bodies_cons, !map_app.
     pose proof (tsize_item_pos x) as Hp.
     rewrite (IH r A) by lia. f_equal.
-    destruct x as [t k| |c b]; try reflexivity.
+    destruct x as [t k| |c b|c b]; try reflexivity.
     rewrite ph_attrs_elem, ph_bodies_elem. rewrite tsize_elem in Hs. apply IH. lia.
 Qed.
 
@@ -161,11 +189,15 @@ Proof.
   - destruct its as [|x r]; [contradiction|]. rewrite tsize_cons in Hs. pose proof (tsize_item_pos x) as Hp.
     rewrite ph_bodies_cons, map_app in Hi. rewrite ids_cons. apply in_or_app.
     apply in_app_or in Hi as [Hi|Hi]; [left | right; apply (IH r); [lia | exact Hi]].
-    destruct x as [t kk| |c b].
+    destruct x as [t kk| |c b|c b].
     + rewrite ph_bodies_elem in Hi. rewrite ids_elem. rewrite tsize_elem in Hs. apply (IH kk); [lia | exact Hi].
     + contradiction.
     + simpl in Hi. destruct Hi as [<-|[]]. rewrite ids_comp. now left.
+    + contradiction.
 Qed.
+
+Lemma ph_in_ids its k : In k (map fst (ph_bodies its)) -> In k (ids its).
+Proof. apply (ph_bodies_in_ids (tsize its)). lia. Qed.
 
 Lemma ph_bodies_nodup : forall n its, (tsize its <= n)%nat -> NoDup (ids its) -> NoDup (map fst (ph_bodies its)).
 Proof.
@@ -174,54 +206,172 @@ Proof.
   - destruct its as [|x r]; [constructor|]. rewrite tsize_cons in Hs. pose proof (tsize_item_pos x) as Hp.
     rewrite ids_cons in Hnd. apply nodup_app in Hnd as (Hx & Hr & Hd).
     rewrite ph_bodies_cons, map_app. apply nodup_app. repeat split.
-    + destruct x as [t kk| |c b].
+    + destruct x as [t kk| |c b|c b].
       * rewrite ph_bodies_elem. rewrite ids_elem in Hx. rewrite tsize_elem in Hs. apply IH; [lia | exact Hx].
       * constructor.
       * simpl. constructor; [intros [] | constructor].
+      * constructor.
     + apply IH; [lia | exact Hr].
     + intros k Hk Hk'. apply (Hd k).
-      * destruct x as [t kk| |c b].
+      * destruct x as [t kk| |c b|c b].
         -- rewrite ph_bodies_elem in Hk. rewrite ids_elem. rewrite tsize_elem in Hs.
            apply (ph_bodies_in_ids n kk); [lia | exact Hk].
         -- contradiction.
         -- simpl in Hk. destruct Hk as [<-|[]]. rewrite ids_comp. now left.
+        -- contradiction.
       * apply (ph_bodies_in_ids n r); [lia | exact Hk'].
+Qed.
+
+Lemma ph_nodup its : NoDup (ids its) -> NoDup (map fst (ph_bodies its)).
+Proof. apply (ph_bodies_nodup (tsize its)). lia. Qed.
+Lemma ph_keys its A : map fst (ph_attrs A its) = map fst (ph_bodies its).
+Proof. apply (ph_keys_eq (tsize its)). lia. Qed.
+
+(* --- tokens --- *)
+Definition no_ph (ts : list tok) : Prop := Forall (fun t => match t with PhTok _ _ => False | _ => True end) ts.
+
+Lemma no_ph_app a b : no_ph a -> no_ph b -> no_ph (a ++ b).
+Proof. intros; apply Forall_app; auto. Qed.
+
+Lemma inline_no_ph : forall n its A, (tsize its <= n)%nat -> no_ph (inline A its).
+Proof.
+  induction n as [|n IH]; intros its A Hs.
+  - destruct its as [|x r]; [constructor|]. rewrite tsize_cons in Hs. pose proof (tsize_item_pos x). lia.
+  - destruct its as [|x r]; [constructor|]. rewrite tsize_cons in Hs. pose proof (tsize_item_pos x) as Hp.
+    rewrite inline_cons. apply no_ph_app; [|apply IH; lia].
+    destruct x as [t k| |c b|c b].
+    + rewrite inline_elem. rewrite tsize_elem in Hs. constructor; [exact I|].
+      apply no_ph_app; [apply IH; lia | repeat constructor].
+    + repeat constructor.
+    + rewrite inline_comp. rewrite tsize_comp in Hs. apply IH; lia.
+    + rewrite inline_root. rewrite tsize_root in Hs. apply IH; lia.
+Qed.
+
+Lemma watched_app a b : watched (a ++ b) = watched a ++ watched b.
+Proof. induction a as [|[t i|t| |g i] a IH]; simpl; [reflexivity | exact IH | exact IH | exact IH | now rewrite IH]. Qed.
+
+Lemma watched_no_ph ts : no_ph ts -> watched ts = [].
+Proof. induction 1 as [|[t i|t| |g i] ts Hx _ IH]; simpl; auto. contradiction. Qed.
+
+Lemma watched_flat : forall n its A, (tsize its <= n)%nat -> watched (flat A its) = ph_attrs A its.
+Proof.
+  induction n as [|n IH]; intros its A Hs.
+  - destruct its as [|x r]; [reflexivity|]. rewrite tsize_cons in Hs. pose proof (tsize_item_pos x). lia.
+  - destruct its as [|x r]; [reflexivity|]. rewrite tsize_cons in Hs. pose proof (tsize_item_pos x) as Hp.
+    rewrite flat_cons, ph_attrs_cons, watched_app, (IH r) by lia. f_equal.
+    destruct x as [t k| |c b|c b].
+    + rewrite flat_elem, ph_attrs_elem. rewrite tsize_elem in Hs. cbn [watched]. rewrite watched_app, (IH k) by lia.
+      simpl. now rewrite app_nil_r.
+    + reflexivity.
+    + reflexivity.
+    + rewrite flat_root. apply watched_no_ph. apply (inline_no_ph (tsize b)). lia.
+Qed.
+
+Lemma split_go_no_ph c p ts : no_ph ts -> forall acc rest, split_go c p acc (ts ++ rest) = split_go c p (acc ++ ts) rest.
+Proof.
+  induction 1 as [|t ts Ht _ IH]; intros acc rest; simpl app.
+  - now rewrite app_nil_r.
+  - destruct t; try contradiction; cbn [split_go]; rewrite IH, <- app_assoc; reflexivity.
+Qed.
+
+(* set_html_attributes touches the top level only; on finished (inlined) HTML and on a freshly rendered fragment *)
+Lemma set_attrs_inline A : forall n its P d rest, (tsize its <= n)%nat ->
+  set_attrs A d (inline P its ++ rest) =
+  (match d with O => inline (A ++ P) its | S _ => inline P its end) ++ set_attrs A d rest.
+Proof.
+  induction n as [|n IH]; intros its P d rest Hs.
+  - destruct its as [|x r]; [destruct d; reflexivity|]. rewrite tsize_cons in Hs. pose proof (tsize_item_pos x). lia.
+  - destruct its as [|x r]; [destruct d; reflexivity|]. rewrite tsize_cons in Hs. pose proof (tsize_item_pos x) as Hp.
+    rewrite inline_cons, <- app_assoc.
+    assert (Hx : forall rest', set_attrs A d (inline_item P x ++ rest') =
+                   (match d with O => inline_item (A ++ P) x | S _ => inline_item P x end) ++ set_attrs A d rest').
+    { intro rest'. destruct x as [t k| |c b|c b].
+      - rewrite inline_elem. rewrite tsize_elem in Hs. cbn [app set_attrs]. rewrite <- app_assoc.
+        rewrite (IH k [] (S d)) by lia. cbn [app set_attrs pred].
+        destruct d; rewrite ?inline_elem; cbn [app]; rewrite <- ?app_assoc; reflexivity.
+      - destruct d; reflexivity.
+      - rewrite inline_comp. rewrite tsize_comp in Hs. rewrite (IH b) by lia.
+        destruct d; rewrite ?inline_comp; [now rewrite app_assoc | reflexivity].
+      - rewrite inline_root. rewrite tsize_root in Hs. rewrite (IH b) by lia.
+        destruct d; rewrite ?inline_root; [now rewrite app_assoc | reflexivity]. }
+    rewrite Hx, (IH r) by lia. destruct d; rewrite ?inline_cons, <- ?app_assoc; reflexivity.
+Qed.
+
+Lemma set_attrs_flat A : forall n its d rest, (tsize its <= n)%nat ->
+  set_attrs A d (flat [] its ++ rest) =
+  (match d with O => flat A its | S _ => flat [] its end) ++ set_attrs A d rest.
+Proof.
+  induction n as [|n IH]; intros its d rest Hs.
+  - destruct its as [|x r]; [destruct d; reflexivity|]. rewrite tsize_cons in Hs. pose proof (tsize_item_pos x). lia.
+  - destruct its as [|x r]; [destruct d; reflexivity|]. rewrite tsize_cons in Hs. pose proof (tsize_item_pos x) as Hp.
+    rewrite flat_cons, <- app_assoc.
+    assert (Hx : forall rest', set_attrs A d (flat_item [] x ++ rest') =
+                   (match d with O => flat_item A x | S _ => flat_item [] x end) ++ set_attrs A d rest').
+    { intro rest'. destruct x as [t k| |c b|c b].
+      - rewrite flat_elem. rewrite tsize_elem in Hs. cbn [app set_attrs]. rewrite <- app_assoc.
+        rewrite (IH k (S d)) by lia. cbn [app set_attrs pred].
+        destruct d; rewrite ?flat_elem; cbn [app]; rewrite <- app_assoc, ?app_nil_r; reflexivity.
+      - destruct d; reflexivity.
+      - destruct d; simpl; rewrite ?app_nil_r; reflexivity.
+      - rewrite flat_root. rewrite (set_attrs_inline A (tsize b)) by lia.
+        destruct d; rewrite ?flat_root; reflexivity. }
+    rewrite Hx, (IH r) by lia. destruct d; rewrite ?flat_cons, <- ?app_assoc; reflexivity.
+Qed.
+
+Lemma set_attrs_flat0 A its : set_attrs A 0 (flat [] its) = flat A its.
+Proof.
+  pose proof (set_attrs_flat A (tsize its) its 0 [] (le_n _)) as H. rewrite !app_nil_r in H. exact H.
 Qed.
 
 (* ====================================================================================== *)
 (* 4. the queue                                                                            *)
 (* ====================================================================================== *)
-Fixpoint steps (n : nat) (s : st) : option st :=
+(* n iterations of the loop of a run that has F units of fuel left; a root run that starts re-entrantly during an
+   iteration gets what is left after that iteration *)
+Fixpoint stepsF (n F : nat) (s : st) : option st :=
   match n with
   | O => Some s
-  | S m => match step s with inl s' => steps m s' | inr _ => None end
+  | S m => match F with
+           | O => None
+           | S F' => match step (post_render F') s with Done s' => stepsF m F' s' | _ => None end
+           end
   end.
 
-Lemma steps_add a b s : steps (a + b) s = match steps a s with Some s' => steps b s' | None => None end.
+Lemma run_S f s :
+  run (S f) s = match queue s with
+                | [] => Done s
+                | _ :: _ => match step (post_render f) s with
+                            | Done s' => run f s' | Failed e => Failed e | OutOfFuel => OutOfFuel end
+                end.
+Proof. reflexivity. Qed.
+
+Lemma step_idle nest s : queue s = [] -> step nest s = Done s.
+Proof. intro Hq. unfold step. now rewrite Hq. Qed.
+
+Lemma stepsF_add a b : forall F s,
+  stepsF (a + b) F s = match stepsF a F s with Some s' => stepsF b (F - a) s' | None => None end.
 Proof.
-  revert s. induction a as [|a IH]; intro s; simpl; [reflexivity|].
-  destruct (step s) as [s'|e]; [apply IH | reflexivity].
+  induction a as [|a IH]; intros F s; simpl.
+  - now rewrite Nat.sub_0_r.
+  - destruct F as [|F']; [reflexivity|]. destruct (step (post_render F') s) as [s'|e|]; try reflexivity.
+    rewrite IH. reflexivity.
 Qed.
 
-Lemma steps_idle n s : queue s = [] -> steps n s = Some s.
+Lemma stepsF_idle_inv n : forall F s s', queue s = [] -> stepsF n F s = Some s' -> s' = s.
 Proof.
-  intro Hq. induction n as [|n IH]; simpl; [reflexivity|].
-  unfold step. rewrite Hq. exact IH.
+  induction n as [|n IH]; intros F s s' Hq H; simpl in H.
+  - now inversion H.
+  - destruct F as [|F']; [discriminate|]. rewrite (step_idle _ _ Hq) in H. eapply IH; eassumption.
 Qed.
 
-Lemma run_of_steps n s s' : steps n s = Some s' -> queue s' = [] -> run n s = Done s'.
+Lemma run_of_stepsF n : forall F s s', stepsF n F s = Some s' -> queue s' = [] -> run F s = Done s'.
 Proof.
-  revert s. induction n as [|n IH]; intros s Hs Hq; simpl in *.
-  - inversion Hs; subst. now rewrite Hq.
-  - destruct (queue s) eqn:Eq.
-    + unfold step in Hs. rewrite Eq in Hs. rewrite steps_idle in Hs by exact Eq. now inversion Hs.
-    + destruct (step s) as [s1|e]; [now apply IH | discriminate].
+  induction n as [|n IH]; intros F s s' H Hq; simpl in H.
+  - inversion H; subst. destruct F; simpl; now rewrite Hq.
+  - destruct F as [|F']; [discriminate|]. rewrite run_S. destruct (queue s) eqn:Eq.
+    + rewrite (step_idle _ _ Eq) in H. now rewrite (stepsF_idle_inv _ _ _ _ Eq H).
+    + destruct (step (post_render F') s) as [s1|e|]; try discriminate. now apply IH.
 Qed.
-
-Lemma split_go_plain c p acc t r :
-  (match t with PhTok _ _ => False | _ => True end) ->
-  split_go c p acc (t :: r) = split_go c p (acc ++ [t]) r.
-Proof. destruct t; simpl; intros H; try reflexivity; contradiction. Qed.
 
 Definition pget (s : st) (k : N) : list tok := aget [] k (parts s).
 
@@ -238,25 +388,132 @@ Proof. destruct b; simpl; [now rewrite app_nil_r | apply aget_parts_append_eq]. 
 Lemma alookup_add_before_neq k c b ps : k <> c -> alookup k (add_before c b ps) = alookup k ps.
 Proof. intro H. destruct b; simpl; [reflexivity | now apply alookup_parts_append_neq]. Qed.
 
-Lemma step_child s b g c p q body inh :
-  queue s = {| q_before := b; q_child := Some g; q_parent := Some c; q_grand := p |} :: q ->
-  alookup g (rend s) = Some body ->
-  alookup g (cattrs s) = Some inh ->
-  step s = inl {| queue := split_go g (Some c) [] (flat (inh ++ [g]) body) ++ q;
-                  parts := add_before c b (parts s);
-                  content := content s;
-                  rend := aupdate (ph_bodies body) (aremove g (rend s));
-                  cattrs := aupdate (ph_attrs (inh ++ [g]) body) (aremove g (cattrs s)) |}.
+Lemma step_end nest s b c g q :
+  queue s = {| q_before := b; q_child := None; q_parent := Some c; q_grand := Some g |} :: q ->
+  step nest s = Done {| queue := q; parts := parts_append g (pget s c ++ b) (aremove c (parts s));
+                        content := content s; rend := rend s; cattrs := cattrs s |}.
+Proof. intro Hq. unfold step. rewrite Hq. reflexivity. Qed.
+
+(* --- rendering a template --- *)
+Lemma render_tpl_cons nest tb x r :
+  render_tpl nest tb (x :: r) =
+  match render_item nest tb x with
+  | Done (a, tb1) => match render_tpl nest tb1 r with
+                     | Done (b, tb2) => Done (a ++ b, tb2)
+                     | Failed e => Failed e | OutOfFuel => OutOfFuel end
+  | Failed e => Failed e | OutOfFuel => OutOfFuel end.
+Proof. reflexivity. Qed.
+Lemma render_item_elem nest tb t kids :
+  render_item nest tb (IElem t kids) =
+  match render_tpl nest tb kids with
+  | Done (k, tb1) => Done (Open t [] :: k ++ [Close t], tb1)
+  | Failed e => Failed e | OutOfFuel => OutOfFuel end.
+Proof. reflexivity. Qed.
+
+(* the tables mention none of the ids I *)
+Definition fresh (I : list N) (tb : list (N * list item) * list (N * list N)) : Prop :=
+  forall k, In k I -> alookup k (fst tb) = None /\ alookup k (snd tb) = None.
+
+(* a root run on tables that mention none of its ids: result = inlining, tables as found *)
+Definition root_spec (F : nat) (c : N) (body : list item) : Prop :=
+  forall tb, NoDup (c :: ids body) -> fresh (c :: ids body) tb ->
+    exists tb', post_render F tb c body = Done (inline [c] body, tb') /\ teq (fst tb) (fst tb') /\ teq (snd tb) (snd tb').
+
+Definition roots_ok (n : nat) : Prop :=
+  forall c body F, (tsize body < n)%nat -> (2 * S (ninst body) <= F)%nat -> root_spec F c body.
+
+Lemma in_map_fst {A B} (k : A) (v : B) l : In (k, v) l -> In k (map fst l).
+Proof. intro H. apply in_map_iff. exists (k, v). auto. Qed.
+
+Lemma render_ok n (HQ : roots_ok n) : forall m its tb F,
+  (tsize its <= m)%nat -> (tsize its <= n)%nat -> (2 * ninst its <= F)%nat ->
+  NoDup (ids its) -> fresh (ids its) tb ->
+  exists tb', render_tpl (post_render F) tb its = Done (flat [] its, tb') /\
+    (forall g b, In (g, b) (ph_bodies its) -> alookup g (fst tb') = Some b) /\
+    (forall k, ~ In k (map fst (ph_bodies its)) -> alookup k (fst tb') = alookup k (fst tb)) /\
+    teq (snd tb) (snd tb').
 Proof.
-  intros Hq Hr Ha. unfold step. rewrite Hq. cbn [q_child q_before q_parent q_grand].
-  destruct b; cbn [add_before]; rewrite Hr, Ha; reflexivity.
+  induction m as [|m IH]; intros its tb F Hm Hn HF Hnd Hfr.
+  { destruct its as [|x r]; [|rewrite tsize_cons in Hm; pose proof (tsize_item_pos x); lia].
+    exists tb. repeat split; try reflexivity. intros g b []. }
+  destruct its as [|x r].
+  { exists tb. repeat split; try reflexivity. intros g b []. }
+  rewrite tsize_cons in Hm, Hn. pose proof (tsize_item_pos x) as Hpos.
+  rewrite ids_cons in Hnd, Hfr. apply nodup_app in Hnd as (Hndx & Hndr & Hdis).
+  rewrite ninst_cons in HF. rewrite render_tpl_cons.
+  (* the first item *)
+  assert (Hx : exists tb1, render_item (post_render F) tb x = Done (flat_item [] x, tb1) /\
+                 (forall g b, In (g, b) (ph_bodies_item x) -> alookup g (fst tb1) = Some b) /\
+                 (forall k, ~ In k (map fst (ph_bodies_item x)) -> alookup k (fst tb1) = alookup k (fst tb)) /\
+                 teq (snd tb) (snd tb1)).
+  { destruct x as [t kids| |g b|c b].
+    - rewrite tsize_elem in Hm, Hn. rewrite ids_elem in *. rewrite ninst_elem in HF.
+      destruct (IH kids tb F ltac:(lia) ltac:(lia) ltac:(lia) Hndx) as (tb1 & Hr & H1 & H2 & H3).
+      { intros k Hk. apply Hfr, in_or_app; auto. }
+      exists tb1. rewrite render_item_elem, Hr. rewrite flat_elem, ph_bodies_elem. auto.
+    - exists tb. repeat split; try reflexivity. intros g b [].
+    - exists (aset g b (fst tb), snd tb). cbn [render_item fst snd ph_bodies_item map]. repeat split.
+      + intros g' b' [Hi|[]]. inversion Hi; subst. apply alookup_aset_eq.
+      + intros k Hk. apply alookup_aset_neq. intro; subst. apply Hk. now left.
+    - rewrite tsize_root in Hm, Hn. rewrite ids_root in *. rewrite ninst_root in HF.
+      destruct (HQ c b F ltac:(lia) ltac:(lia) tb Hndx) as (tb1 & Hr & H1 & H2).
+      { intros k Hk. apply Hfr, in_or_app; auto. }
+      exists tb1. cbn [render_item]. rewrite Hr. cbn [ph_bodies_item map]. repeat split; auto.
+      intros g b' []. }
+  destruct Hx as (tb1 & Hr1 & Hx1 & Hx2 & Hx3). rewrite Hr1.
+  assert (Hkx : forall k, In k (map fst (ph_bodies_item x)) -> In k (ids_item x)).
+  { intros k Hk. assert (Hk' : In k (map fst (ph_bodies [x]))) by (rewrite ph_bodies_cons; simpl; now rewrite app_nil_r).
+    apply ph_in_ids in Hk'. rewrite ids_cons in Hk'. simpl in Hk'. now rewrite app_nil_r in Hk'. }
+  destruct (IH r tb1 F ltac:(lia) ltac:(lia) ltac:(lia) Hndr) as (tb2 & Hr2 & Hy1 & Hy2 & Hy3).
+  { intros k Hk. split.
+    - rewrite Hx2; [apply Hfr, in_or_app; auto|]. intro Hk'. exact (Hdis k (Hkx k Hk') Hk).
+    - rewrite Hx3. apply Hfr, in_or_app; auto. }
+  rewrite Hr2. exists tb2. split; [now rewrite flat_cons|]. rewrite ph_bodies_cons, map_app. split; [|split].
+  - intros g b Hi. apply in_app_or in Hi as [Hi|Hi]; [|now apply Hy1].
+    rewrite Hy2; [now apply Hx1|]. intro Hk'. apply ph_in_ids in Hk'.
+    exact (Hdis g (Hkx g (in_map_fst _ _ _ Hi)) Hk').
+  - intros k Hk. rewrite Hy2, Hx2; [reflexivity | |]; intro; apply Hk, in_or_app; auto.
+  - intro k. now rewrite Hy3, Hx3.
 Qed.
 
-Lemma step_end s b c g q :
-  queue s = {| q_before := b; q_child := None; q_parent := Some c; q_grand := Some g |} :: q ->
-  step s = inl {| queue := q; parts := parts_append g (pget s c ++ b) (aremove c (parts s));
-                  content := content s; rend := rend s; cattrs := cattrs s |}.
-Proof. intro Hq. unfold step. rewrite Hq. reflexivity. Qed.
+(* the iteration that renders a child (or the root itself: par = None, b = []) *)
+Lemma step_child n (HQ : roots_ok n) F s b g par gp q body inh :
+  queue s = {| q_before := b; q_child := Some g; q_parent := par; q_grand := gp |} :: q ->
+  (b = [] \/ exists c, par = Some c) ->
+  alookup g (rend s) = Some body ->
+  match alookup g (cattrs s) with Some l => l | None => [] end = inh ->
+  NoDup (g :: ids body) -> (tsize body <= n)%nat -> (2 * ninst body <= F)%nat ->
+  (forall k, In k (ids body) -> alookup k (rend s) = None /\ alookup k (cattrs s) = None) ->
+  exists s1, step (post_render F) s = Done s1 /\
+    queue s1 = split_go g par [] (flat (inh ++ [g]) body) ++ q /\
+    parts s1 = match par with Some c => add_before c b (parts s) | None => parts s end /\
+    content s1 = content s /\
+    (forall k v, In (k, v) (ph_bodies body) -> alookup k (rend s1) = Some v) /\
+    (forall k, ~ In k (map fst (ph_bodies body)) -> alookup k (rend s1) = alookup k (aremove g (rend s))) /\
+    (forall k v, In (k, v) (ph_attrs (inh ++ [g]) body) -> alookup k (cattrs s1) = Some v) /\
+    (forall k, ~ In k (map fst (ph_bodies body)) -> alookup k (cattrs s1) = alookup k (aremove g (cattrs s))).
+Proof.
+  intros Hq Hb Hr Hinh Hnd Hn HF Hcl. inversion Hnd as [|? ? Hgb Hndb]; subst.
+  destruct (render_ok n HQ (tsize body) body (aremove g (rend s), aremove g (cattrs s)) F (le_n _) Hn HF Hndb)
+    as ([rd2 ca2] & Hrender & H1 & H2 & H3).
+  { intros k Hk. assert (k <> g) by (intro; subst; contradiction). cbn [fst snd].
+    rewrite !alookup_aremove_neq by assumption. now apply Hcl. }
+  cbn [fst snd] in *.
+  assert (Hstep : step (post_render F) s =
+            Done {| queue := split_go g par [] (set_attrs (match alookup g (cattrs s) with Some l => l | None => [] end ++ [g]) 0 (flat [] body)) ++ q;
+                    parts := match par with Some c => add_before c b (parts s) | None => parts s end;
+                    content := content s; rend := rd2;
+                    cattrs := aupdate (watched (set_attrs (match alookup g (cattrs s) with Some l => l | None => [] end ++ [g]) 0 (flat [] body))) ca2 |}).
+  { unfold step. rewrite Hq. cbn [q_child q_before q_parent q_grand].
+    destruct Hb as [->|(c & ->)].
+    - rewrite Hr, Hrender. destruct par; reflexivity.
+    - destruct b; cbn [add_before]; rewrite Hr, Hrender; reflexivity. }
+  eexists. split; [exact Hstep|]. cbn [queue parts content rend cattrs].
+  rewrite set_attrs_flat0, (watched_flat (tsize body)) by lia.
+  repeat split; auto.
+  - intros k v Hi. apply alookup_aupdate_in; [|exact Hi]. rewrite ph_keys. now apply ph_nodup.
+  - intros k Hk. rewrite alookup_aupdate_out by (now rewrite ph_keys). apply H3.
+Qed.
 
 (* what processing the placeholders of one fragment does to the rest of the state *)
 Definition frame (I : list N) (c : N) (s s' : st) : Prop :=
@@ -280,72 +537,98 @@ Proof.
     rewrite Hp2; [now apply Hn1 | intro; subst; contradiction | exact Hk].
 Qed.
 
-Lemma frame_ext I I' c s s' : (forall k, In k I <-> In k I') -> frame I c s s' -> frame I' c s s'.
+(* ids that were absent before and are not touched stay absent *)
+Lemma frame_more J I c s s' :
+  frame I c s s' -> ~ In c J ->
+  (forall k, In k J -> alookup k (rend s) = None /\ alookup k (cattrs s) = None /\ alookup k (parts s) = None) ->
+  frame (J ++ I) c s s'.
 Proof.
-  intros He (H1 & H2 & H3 & H4 & H5).
-  split; [exact H1|]. split; [eapply same_out_ext; eassumption|]. split; [eapply same_out_ext; eassumption|].
-  split; intros k; [intros Hk Hn; apply H4; [exact Hk | rewrite He; exact Hn] | intro Hk; apply H5; rewrite He; exact Hk].
+  intros (Hc1 & [Hr1 Hr1'] & [Ha1 Ha1'] & Hp1 & Hn1) Hc HJ.
+  assert (Hnot : forall k, ~ In k (J ++ I) -> ~ In k I) by (intros k H Hi; apply H, in_or_app; auto).
+  split; [exact Hc1|]. split; [|split; [|split]].
+  - split; [intros k Hk; apply Hr1; auto|]. intros k Hk.
+    destruct (in_dec N.eq_dec k I) as [Hi|Hi]; [now apply Hr1'|].
+    apply in_app_or in Hk as [Hk|Hk]; [|contradiction]. rewrite Hr1 by exact Hi. now apply HJ.
+  - split; [intros k Hk; apply Ha1; auto|]. intros k Hk.
+    destruct (in_dec N.eq_dec k I) as [Hi|Hi]; [now apply Ha1'|].
+    apply in_app_or in Hk as [Hk|Hk]; [|contradiction]. rewrite Ha1 by exact Hi. now apply HJ.
+  - intros k Hkc Hk. apply Hp1; auto.
+  - intros k Hk. destruct (in_dec N.eq_dec k I) as [Hi|Hi]; [now apply Hn1|].
+    apply in_app_or in Hk as [Hk|Hk]; [|contradiction].
+    rewrite Hp1; [now apply HJ | intro; subst; contradiction | exact Hi].
 Qed.
 
 Definition reg_ok (rd : list (N * list item)) (its : list item) : Prop :=
   forall c b, In (c, b) (ph_bodies its) -> alookup c rd = Some b.
 Definition att_ok (ca : list (N * list N)) (A : list N) (its : list item) : Prop :=
   forall c a, In (c, a) (ph_attrs A its) -> alookup c ca = Some a.
+(* apart from the fragment's own placeholders, the tables mention no id of the fragment *)
+Definition clean_ok (s : st) (its : list item) : Prop :=
+  forall k, In k (ids its) -> ~ In k (map fst (ph_bodies its)) -> alookup k (rend s) = None /\ alookup k (cattrs s) = None.
 
 Definition proc_spec (its : list item) : Prop :=
-  forall A c p acc suffix Q s,
-    NoDup (ids its) -> ~ In c (ids its) ->
+  forall A c p acc suffix Q s F,
+    NoDup (ids its) -> ~ In c (ids its) -> (2 * ninst its <= F)%nat ->
     queue s = split_go c p acc (flat A its ++ suffix) ++ Q ->
     (forall k, In k (ids its) -> alookup k (parts s) = None) ->
-    reg_ok (rend s) its -> att_ok (cattrs s) A its ->
+    reg_ok (rend s) its -> att_ok (cattrs s) A its -> clean_ok s its ->
     exists s' acc',
-      steps (2 * ninst its) s = Some s' /\
+      stepsF (2 * ndef its) F s = Some s' /\
       queue s' = split_go c p acc' suffix ++ Q /\
       pget s' c ++ acc' = pget s c ++ acc ++ inline A its /\
       frame (ids its) c s s'.
 
-Lemma in_map_fst {A B} (k : A) (v : B) l : In (k, v) l -> In k (map fst l).
-Proof. intro H. apply in_map_iff. exists (k, v). auto. Qed.
+Definition procs_ok (n : nat) : Prop := forall its, (tsize its <= n)%nat -> proc_spec its.
 
-Lemma proc : forall n its, (tsize its <= n)%nat -> proc_spec its.
+Lemma proc_nil : proc_spec [].
 Proof.
-  induction n as [|n IH]; intros its Hs.
-  { destruct its as [|x r]; [|rewrite tsize_cons in Hs; pose proof (tsize_item_pos x); lia].
-    intros A c p acc suffix Q s _ _ Hq _ _ _. exists s, acc. simpl.
-    repeat split; try reflexivity; try (intros k []); [exact Hq | now rewrite app_nil_r]. }
-  destruct its as [|x r].
-  { intros A c p acc suffix Q s _ _ Hq _ _ _. exists s, acc. simpl.
-    repeat split; try reflexivity; try (intros k []); [exact Hq | now rewrite app_nil_r]. }
+  intros A c p acc suffix Q s F _ _ _ Hq _ _ _ _. exists s, acc. simpl.
+  repeat split; try reflexivity; try (intros k []); [exact Hq | now rewrite app_nil_r].
+Qed.
+
+Lemma proc_step n : procs_ok n -> roots_ok n -> procs_ok (S n).
+Proof.
+  intros IH HQ its Hs.
+  destruct its as [|x r]; [apply proc_nil|].
   rewrite tsize_cons in Hs. pose proof (tsize_item_pos x) as Hpos.
-  intros A c p acc suffix Q s Hnd Hc Hq Hpn Hreg Hatt.
+  intros A c p acc suffix Q s F Hnd Hc HF Hq Hpn Hreg Hatt Hcl.
   rewrite ids_cons in Hnd, Hc, Hpn. apply nodup_app in Hnd as (Hndx & Hndr & Hdis).
   assert (Hcx : ~ In c (ids_item x)) by (intro; apply Hc, in_or_app; auto).
   assert (Hcr : ~ In c (ids r)) by (intro; apply Hc, in_or_app; auto).
+  rewrite ninst_cons in HF.
   rewrite flat_cons, <- app_assoc in Hq.
-  destruct x as [t kids| |g body].
+  destruct x as [t kids| |g body|r0 b0].
   - (* element: its children are not roots *)
     rewrite flat_elem in Hq. cbn [app split_go] in Hq.
-    rewrite <- app_assoc in Hq. rewrite ids_elem in *. rewrite tsize_elem in Hs.
-    destruct (IH kids ltac:(lia) [] c p (acc ++ [Open t A]) ([Close t] ++ flat A r ++ suffix) Q s) as (s1 & acc1 & Hst1 & Hq1 & Hg1 & Hf1);
-      try assumption.
+    rewrite <- app_assoc in Hq. rewrite ids_elem in *. rewrite tsize_elem in Hs. rewrite ninst_elem in HF.
+    destruct (IH kids ltac:(lia) [] c p (acc ++ [Open t A]) ([Close t] ++ flat A r ++ suffix) Q s F) as (s1 & acc1 & Hst1 & Hq1 & Hg1 & Hf1);
+      try assumption; try lia.
     { intros k Hk. apply Hpn, in_or_app; auto. }
     { intros k b Hi. apply Hreg. rewrite ph_bodies_cons, ph_bodies_elem. apply in_or_app; auto. }
     { intros k a Hi. apply Hatt. rewrite ph_attrs_cons, ph_attrs_elem. apply in_or_app; auto. }
+    { intros k Hk Hnk. apply Hcl; [rewrite ids_cons, ids_elem; apply in_or_app; auto|].
+      rewrite ph_bodies_cons, ph_bodies_elem, map_app. intro Hi. apply in_app_or in Hi as [Hi|Hi]; [contradiction|].
+      apply ph_in_ids in Hi. exact (Hdis k Hk Hi). }
     cbn [app split_go] in Hq1.
     destruct Hf1 as (Hco1 & Hrd1 & Hca1 & Hpp1 & Hpn1).
-    destruct (IH r ltac:(lia) A c p (acc1 ++ [Close t]) suffix Q s1) as (s2 & acc2 & Hst2 & Hq2 & Hg2 & Hf2);
-      try assumption.
+    assert (Hndef1 : (ndef kids <= ninst kids)%nat) by (apply (ndef_le_ninst (tsize kids)); lia).
+    destruct (IH r ltac:(lia) A c p (acc1 ++ [Close t]) suffix Q s1 (F - 2 * ndef kids)%nat) as (s2 & acc2 & Hst2 & Hq2 & Hg2 & Hf2);
+      try assumption; try lia.
     { intros k Hk. rewrite Hpp1; [apply Hpn, in_or_app; auto | intro; subst; contradiction | intro Hk'; exact (Hdis k Hk' Hk)]. }
     { intros k b Hi. destruct Hrd1 as [Hrd1 _]. rewrite Hrd1.
       - apply Hreg. rewrite ph_bodies_cons. apply in_or_app; auto.
-      - intro Hk'. apply (Hdis k Hk'). apply (ph_bodies_in_ids (tsize r) r); [lia | eapply in_map_fst; eassumption]. }
+      - intro Hk'. apply (Hdis k Hk'). apply ph_in_ids. eapply in_map_fst; eassumption. }
     { intros k a Hi. destruct Hca1 as [Hca1 _]. rewrite Hca1.
       - apply Hatt. rewrite ph_attrs_cons. apply in_or_app; auto.
-      - intro Hk'. apply (Hdis k Hk'). apply (ph_bodies_in_ids (tsize r) r); [lia|].
-        rewrite <- (ph_keys_eq (tsize r) r A) by lia. eapply in_map_fst; eassumption. }
+      - intro Hk'. apply (Hdis k Hk'). apply ph_in_ids. rewrite <- (ph_keys r A). eapply in_map_fst; eassumption. }
+    { intros k Hk Hnk. assert (Hkk : ~ In k (ids kids)) by (intro Hk'; exact (Hdis k Hk' Hk)).
+      destruct Hrd1 as [Hrd1 _]. destruct Hca1 as [Hca1 _]. rewrite Hrd1, Hca1 by exact Hkk.
+      apply Hcl; [rewrite ids_cons, ids_elem; apply in_or_app; auto|].
+      rewrite ph_bodies_cons, ph_bodies_elem, map_app. intro Hi. apply in_app_or in Hi as [Hi|Hi]; [|contradiction].
+      apply Hkk. now apply ph_in_ids. }
     exists s2, acc2. split; [|split; [exact Hq2|split]].
-    + rewrite ninst_cons, ninst_elem. replace (2 * (ninst kids + ninst r))%nat with (2 * ninst kids + 2 * ninst r)%nat by lia.
-      rewrite steps_add, Hst1. exact Hst2.
+    + rewrite ndef_cons, ndef_elem. replace (2 * (ndef kids + ndef r))%nat with (2 * ndef kids + 2 * ndef r)%nat by lia.
+      rewrite stepsF_add, Hst1. exact Hst2.
     + rewrite Hg2.
       replace (pget s1 c ++ (acc1 ++ [Close t]) ++ inline A r) with ((pget s1 c ++ acc1) ++ [Close t] ++ inline A r)
         by (repeat rewrite <- app_assoc; reflexivity).
@@ -353,12 +636,12 @@ Proof.
     + eapply frame_trans; [exact Hcx | | exact Hf2]. exact (conj Hco1 (conj Hrd1 (conj Hca1 (conj Hpp1 Hpn1)))).
   - (* text *)
     cbn [flat_item app split_go] in Hq.
-    destruct (IH r ltac:(simpl in Hs; lia) A c p (acc ++ [Txt]) suffix Q s) as (s2 & acc2 & Hst2 & Hq2 & Hg2 & Hf2);
-      try assumption.
+    destruct (IH r ltac:(simpl in Hs; lia) A c p (acc ++ [Txt]) suffix Q s F) as (s2 & acc2 & Hst2 & Hq2 & Hg2 & Hf2);
+      try assumption; try (simpl in HF; lia).
     exists s2, acc2. split; [exact Hst2|]. split; [exact Hq2|]. split; [|exact Hf2].
     rewrite Hg2. rewrite inline_cons. simpl. repeat rewrite <- app_assoc. reflexivity.
   - (* nested component: placeholder -> render with inherited attributes -> its own parts -> join *)
-    rewrite ids_comp in *. rewrite tsize_comp in Hs.
+    rewrite ids_comp in *. rewrite tsize_comp in Hs. rewrite ninst_comp in HF.
     inversion Hndx as [|? ? Hgb Hndb]; subst.
     assert (Hcg : c <> g) by (intro; subst; apply Hcx; now left).
     assert (Hcb : ~ In c (ids body)) by (intro; apply Hcx; now right).
@@ -367,33 +650,38 @@ Proof.
     { apply Hreg. rewrite ph_bodies_cons. apply in_or_app; left. now left. }
     assert (Hag : alookup g (cattrs s) = Some A).
     { apply Hatt. rewrite ph_attrs_cons. apply in_or_app; left. now left. }
-    pose proof (step_child s acc g c p _ body A Hq Hrg Hag) as Hstep.
-    set (s1 := {| queue := split_go g (Some c) [] (flat (A ++ [g]) body) ++ split_go c p [] (flat A r ++ suffix) ++ Q;
-                  parts := add_before c acc (parts s); content := content s;
-                  rend := aupdate (ph_bodies body) (aremove g (rend s));
-                  cattrs := aupdate (ph_attrs (A ++ [g]) body) (aremove g (cattrs s)) |}) in *.
-    assert (Hkb : NoDup (map fst (ph_bodies body))) by (apply (ph_bodies_nodup (tsize body)); [lia | exact Hndb]).
-    destruct (IH body ltac:(lia) (A ++ [g]) g (Some c) [] [] (split_go c p [] (flat A r ++ suffix) ++ Q) s1)
-      as (s2 & acc2 & Hst2 & Hq2 & Hg2 & Hf2); try assumption.
-    { unfold s1; cbn [queue]. now rewrite app_nil_r. }
-    { intros k Hk. unfold s1; cbn [parts]. rewrite alookup_add_before_neq by (intro; subst; contradiction).
+    assert (Hkeys_its : forall k, In k (map fst (ph_bodies (IComp g body :: r))) -> k = g \/ In k (ids r)).
+    { intros k Hi. rewrite ph_bodies_cons, map_app in Hi. apply in_app_or in Hi as [[Hi|[]]|Hi]; [now left|].
+      right. now apply ph_in_ids. }
+    assert (Hbody_clean : forall k, In k (ids body) -> alookup k (rend s) = None /\ alookup k (cattrs s) = None).
+    { intros k Hk. apply Hcl; [rewrite ids_cons, ids_comp; apply in_or_app; left; now right|].
+      intro Hi. apply Hkeys_its in Hi as [->|Hi]; [contradiction|].
+      apply (Hdis k); [now right | exact Hi]. }
+    destruct F as [|F1]; [lia|].
+    destruct (step_child n HQ F1 s acc g (Some c) p _ body A Hq (or_intror (ex_intro _ c eq_refl)) Hrg) as
+      (s1 & Hstep & Hq1 & Hp1 & Hc1 & Hr1a & Hr1b & Ha1a & Ha1b); try assumption; try lia.
+    { now rewrite Hag. }
+    destruct (IH body ltac:(lia) (A ++ [g]) g (Some c) [] [] (split_go c p [] (flat A r ++ suffix) ++ Q) s1 F1)
+      as (s2 & acc2 & Hst2 & Hq2 & Hg2 & Hf2); try assumption; try lia.
+    { rewrite Hq1. now rewrite app_nil_r. }
+    { intros k Hk. rewrite Hp1. rewrite alookup_add_before_neq by (intro; subst; contradiction).
       apply Hpn. simpl. right. apply in_or_app; auto. }
-    { intros k b Hi. unfold s1; cbn [rend]. now apply alookup_aupdate_in. }
-    { intros k a Hi. unfold s1; cbn [cattrs]. apply alookup_aupdate_in; [|exact Hi].
-      rewrite (ph_keys_eq (tsize body) body) by lia. exact Hkb. }
+    { intros k Hk Hnk. rewrite Hr1b, Ha1b by exact Hnk.
+      assert (k <> g) by (intro; subst; contradiction).
+      rewrite !alookup_aremove_neq by assumption. now apply Hbody_clean. }
     cbn [split_go] in Hq2.
     destruct Hf2 as (Hco2 & Hrd2 & Hca2 & Hpp2 & Hpn2).
-    pose proof (step_end s2 acc2 g c _ Hq2) as Hstep2.
+    assert (Hndefb : (ndef body <= ninst body)%nat) by (apply (ndef_le_ninst (tsize body)); lia).
     set (s3 := {| queue := split_go c p [] (flat A r ++ suffix) ++ Q;
                   parts := parts_append c (pget s2 g ++ acc2) (aremove g (parts s2));
-                  content := content s2; rend := rend s2; cattrs := cattrs s2 |}) in *.
+                  content := content s2; rend := rend s2; cattrs := cattrs s2 |}).
     assert (Hs1g : pget s1 g = []).
-    { unfold pget, aget, s1; cbn [parts]. rewrite alookup_add_before_neq by congruence.
+    { unfold pget, aget. rewrite Hp1. rewrite alookup_add_before_neq by congruence.
       rewrite Hpn; [reflexivity | now left]. }
     assert (Hs3c : pget s3 c = pget s c ++ acc ++ inline (A ++ [g]) body).
     { unfold pget at 1, s3; cbn [parts]. rewrite aget_parts_append_eq.
       rewrite Hg2, Hs1g. simpl. unfold aget. rewrite alookup_aremove_neq by exact Hcg.
-      rewrite Hpp2 by (congruence || exact Hcb). unfold s1; cbn [parts].
+      rewrite Hpp2 by (congruence || exact Hcb). rewrite Hp1.
       fold (aget [] c (add_before c acc (parts s))). rewrite aget_add_before_eq.
       unfold pget. now rewrite <- app_assoc. }
     (* facts about keys outside {g} + ids body, from s to s3 *)
@@ -402,14 +690,10 @@ Proof.
               (k <> c -> alookup k (parts s3) = alookup k (parts s))).
     { intros k Hkg Hkb'. unfold s3; cbn [rend cattrs parts].
       destruct Hrd2 as [Hrd2 _]. destruct Hca2 as [Hca2 _]. rewrite Hrd2, Hca2 by exact Hkb'.
-      unfold s1; cbn [rend cattrs parts]. repeat split.
-      - rewrite alookup_aupdate_out; [now apply alookup_aremove_neq|].
-        intro Hi. apply Hkb'. apply (ph_bodies_in_ids (tsize body) body); [lia | exact Hi].
-      - rewrite alookup_aupdate_out; [now apply alookup_aremove_neq|].
-        rewrite (ph_keys_eq (tsize body) body) by lia.
-        intro Hi. apply Hkb'. apply (ph_bodies_in_ids (tsize body) body); [lia | exact Hi].
-      - intro Hkc. rewrite alookup_parts_append_neq by exact Hkc. rewrite alookup_aremove_neq by exact Hkg.
-        rewrite Hpp2 by assumption. now apply alookup_add_before_neq. }
+      assert (Hnk : ~ In k (map fst (ph_bodies body))) by (intro Hi; apply Hkb'; now apply ph_in_ids).
+      rewrite Hr1b, Ha1b by exact Hnk. rewrite !alookup_aremove_neq by exact Hkg. repeat split.
+      intro Hkc. rewrite alookup_parts_append_neq by exact Hkc. rewrite alookup_aremove_neq by exact Hkg.
+      rewrite Hpp2 by assumption. rewrite Hp1. now apply alookup_add_before_neq. }
     assert (Hin : forall k, In k (g :: ids body) ->
               alookup k (rend s3) = None /\ alookup k (cattrs s3) = None /\ alookup k (parts s3) = None).
     { intros k Hk. unfold s3; cbn [rend cattrs parts].
@@ -420,97 +704,125 @@ Proof.
         repeat split. rewrite alookup_aremove_neq by (intro; subst; contradiction). now apply Hpn2.
       - destruct Hk as [Hk|Hk]; [subst k|contradiction].
         destruct Hrd2 as [Hrd2 _]. destruct Hca2 as [Hca2 _]. rewrite Hrd2, Hca2 by exact Hkb'.
-        unfold s1; cbn [rend cattrs]. repeat split.
-        + rewrite alookup_aupdate_out; [apply alookup_aremove_eq|].
-          intro Hi. apply Hkb'. apply (ph_bodies_in_ids (tsize body) body); [lia | exact Hi].
-        + rewrite alookup_aupdate_out; [apply alookup_aremove_eq|].
-          rewrite (ph_keys_eq (tsize body) body) by lia.
-          intro Hi. apply Hkb'. apply (ph_bodies_in_ids (tsize body) body); [lia | exact Hi].
-        + apply alookup_aremove_eq. }
+        assert (Hnk : ~ In g (map fst (ph_bodies body))) by (intro Hi; apply Hkb'; now apply ph_in_ids).
+        rewrite Hr1b, Ha1b by exact Hnk. rewrite !alookup_aremove_eq. repeat split. }
     assert (Hf13 : frame (g :: ids body) c s s3).
-    { split; [unfold s3; cbn [content]; rewrite Hco2; reflexivity|].
+    { split; [unfold s3; cbn [content]; rewrite Hco2; exact Hc1|].
       split; [split; intros k Hk; [apply Hout; intro; apply Hk; simpl; auto | apply Hin; exact Hk]|].
       split; [split; intros k Hk; [apply Hout; intro; apply Hk; simpl; auto | apply Hin; exact Hk]|].
       split; [intros k Hkc Hk; apply Hout; auto; intro; apply Hk; simpl; auto | intros k Hk; apply Hin; exact Hk]. }
-    destruct (IH r ltac:(lia) A c p [] suffix Q s3) as (s4 & acc4 & Hst4 & Hq4 & Hg4 & Hf4); try assumption.
+    destruct (IH r ltac:(lia) A c p [] suffix Q s3 (F1 - 2 * ndef body - 1)%nat) as (s4 & acc4 & Hst4 & Hq4 & Hg4 & Hf4);
+      try assumption; try lia.
     { reflexivity. }
     { intros k Hk. assert (Hkx : ~ In k (g :: ids body)) by (intro Hk'; exact (Hdis k Hk' Hk)).
       destruct (Hout k) as (_ & _ & Hp); [intro; subst; apply Hkx; now left | intro; apply Hkx; now right |].
       rewrite Hp by (intro; subst; contradiction). apply Hpn, in_or_app; auto. }
     { intros k b Hi.
-      assert (Hk : In k (ids r)) by (apply (ph_bodies_in_ids (tsize r) r); [lia | eapply in_map_fst; eassumption]).
+      assert (Hk : In k (ids r)) by (apply ph_in_ids; eapply in_map_fst; eassumption).
       assert (Hkx : ~ In k (g :: ids body)) by (intro Hk'; exact (Hdis k Hk' Hk)).
       destruct (Hout k) as (Hr & _ & _); [intro; subst; apply Hkx; now left | intro; apply Hkx; now right |].
       rewrite Hr. apply Hreg. rewrite ph_bodies_cons. apply in_or_app; auto. }
     { intros k a Hi.
       assert (Hk : In k (ids r)).
-      { apply (ph_bodies_in_ids (tsize r) r); [lia|]. rewrite <- (ph_keys_eq (tsize r) r A) by lia.
-        eapply in_map_fst; eassumption. }
+      { apply ph_in_ids. rewrite <- (ph_keys r A). eapply in_map_fst; eassumption. }
       assert (Hkx : ~ In k (g :: ids body)) by (intro Hk'; exact (Hdis k Hk' Hk)).
       destruct (Hout k) as (_ & Ha & _); [intro; subst; apply Hkx; now left | intro; apply Hkx; now right |].
       rewrite Ha. apply Hatt. rewrite ph_attrs_cons. apply in_or_app; auto. }
+    { intros k Hk Hnk.
+      assert (Hkx : ~ In k (g :: ids body)) by (intro Hk'; exact (Hdis k Hk' Hk)).
+      destruct (Hout k) as (Hr & Ha & _); [intro; subst; apply Hkx; now left | intro; apply Hkx; now right |].
+      rewrite Hr, Ha. apply Hcl; [rewrite ids_cons; apply in_or_app; auto|].
+      intro Hi. rewrite ph_bodies_cons, map_app in Hi. apply in_app_or in Hi as [[Hi|[]]|Hi]; [|contradiction].
+      subst. apply Hkx. now left. }
     exists s4, acc4. split; [|split; [exact Hq4|split]].
-    + rewrite ninst_cons, ninst_comp.
-      replace (2 * (S (ninst body) + ninst r))%nat with (1 + (2 * ninst body + (1 + 2 * ninst r)))%nat by lia.
-      rewrite steps_add. cbn [steps]. rewrite Hstep. rewrite steps_add, Hst2. rewrite steps_add. cbn [steps].
-      rewrite Hstep2. exact Hst4.
+    + rewrite ndef_cons, ndef_comp.
+      replace (2 * (S (ndef body) + ndef r))%nat with (1 + (2 * ndef body + (1 + 2 * ndef r)))%nat by lia.
+      rewrite stepsF_add. cbn [stepsF]. rewrite Hstep. replace (S F1 - 1)%nat with F1 by lia.
+      rewrite stepsF_add, Hst2. rewrite stepsF_add.
+      destruct (F1 - 2 * ndef body)%nat as [|F2] eqn:EF; [lia|]. cbn [stepsF].
+      rewrite (step_end (post_render F2) s2 acc2 g c _ Hq2).
+      exact Hst4.
     + rewrite Hg4, Hs3c. rewrite inline_cons, inline_comp. simpl. repeat rewrite <- app_assoc. reflexivity.
     + eapply frame_trans; [exact Hcx | exact Hf13 | exact Hf4].
+  - (* a re-entrant root run: its finished HTML is plain text for this queue *)
+    rewrite ids_root in *. rewrite tsize_root in Hs. rewrite ninst_root in HF.
+    rewrite flat_root in Hq. rewrite split_go_no_ph in Hq by (apply (inline_no_ph (tsize b0)); lia).
+    destruct (IH r ltac:(lia) A c p (acc ++ inline (A ++ [r0]) b0) suffix Q s F) as (s2 & acc2 & Hst2 & Hq2 & Hg2 & Hf2);
+      try assumption; try lia.
+    { intros k Hk. apply Hpn, in_or_app; auto. }
+    { intros k Hk Hnk. apply Hcl; [rewrite ids_cons; apply in_or_app; auto|].
+      rewrite ph_bodies_cons. exact Hnk. }
+    exists s2, acc2. split; [exact Hst2|]. split; [exact Hq2|]. split.
+    + rewrite Hg2. rewrite inline_cons, inline_root. repeat rewrite <- app_assoc. reflexivity.
+    + apply frame_more; [exact Hf2 | exact Hcx |].
+      intros k Hk. assert (Hk' : In k (ids (IRoot r0 b0 :: r))) by (rewrite ids_cons, ids_root; apply in_or_app; auto).
+      assert (Hnk : ~ In k (map fst (ph_bodies (IRoot r0 b0 :: r)))).
+      { rewrite ph_bodies_cons. simpl. intro Hi. apply ph_in_ids in Hi. exact (Hdis k Hk Hi). }
+      destruct (Hcl k Hk' Hnk) as [H1 H2]. repeat split; try assumption. apply Hpn, in_or_app; auto.
 Qed.
 
 (* ====================================================================================== *)
-(* 5. a root component, a page                                                             *)
+(* 5. a root run, a page                                                                   *)
 (* ====================================================================================== *)
-Lemma post_render_spec tb c body :
-  NoDup (c :: ids body) -> alookup c (snd tb) = None ->
-  exists tb', post_render (2 * S (ninst body)) tb c body = Done (inline [] [IComp c body], tb') /\
-              same_out (c :: ids body) (fst tb) (fst tb') /\ same_out (c :: ids body) (snd tb) (snd tb').
+Lemma root_of n : procs_ok n -> roots_ok n -> roots_ok (S n).
 Proof.
-  intros Hnd Hca. inversion Hnd as [|? ? Hcb Hndb]; subst.
-  set (s1 := {| queue := split_go c None [] (flat [c] body) ++ []; parts := []; content := [];
-                rend := aupdate (ph_bodies body) (aremove c (aset c body (fst tb)));
-                cattrs := aupdate (ph_attrs [c] body) (aremove c (snd tb)) |}).
-  assert (Hstep1 : step (init_state tb c body) = inl s1).
-  { unfold step, init_state. cbn [queue q_child q_before q_parent q_grand rend cattrs parts content].
-    rewrite alookup_aset_eq, Hca. reflexivity. }
-  assert (Hkb : NoDup (map fst (ph_bodies body))) by (apply (ph_bodies_nodup (tsize body)); [lia | exact Hndb]).
-  destruct (proc (tsize body) body (le_n _) [c] c None [] [] [] s1) as (s2 & acc2 & Hst2 & Hq2 & Hg2 & Hf2);
-    try assumption.
-  { unfold s1; cbn [queue]. now rewrite !app_nil_r. }
-  { intros k _. reflexivity. }
-  { intros k b Hi. unfold s1; cbn [rend]. now apply alookup_aupdate_in. }
-  { intros k a Hi. unfold s1; cbn [cattrs]. apply alookup_aupdate_in; [|exact Hi].
-    rewrite (ph_keys_eq (tsize body) body) by lia. exact Hkb. }
-  cbn [split_go app] in Hq2. destruct Hf2 as (Hco2 & Hrd2 & Hca2 & _ & _).
+  intros IH HQ c body F Hs HF tb Hnd Hfr. inversion Hnd as [|? ? Hcb Hndb]; subst.
+  destruct F as [|F1]; [lia|].
+  destruct (Hfr c (or_introl eq_refl)) as [Hfc1 Hfc2].
+  destruct (step_child n HQ F1 (init_state tb c body) [] c None None [] body [] eq_refl (or_introl eq_refl))
+    as (s1 & Hstep & Hq1 & Hp1 & Hc1 & Hr1a & Hr1b & Ha1a & Ha1b); try assumption; try lia.
+  { cbn [init_state rend]. apply alookup_aset_eq. }
+  { cbn [init_state cattrs]. now rewrite Hfc2. }
+  { intros k Hk. assert (k <> c) by (intro; subst; contradiction). cbn [init_state rend cattrs].
+    rewrite alookup_aset_neq by assumption. apply Hfr. now right. }
+  cbn [app init_state parts content rend cattrs] in *.
+  destruct (IH body ltac:(lia) [c] c None [] [] [] s1 F1) as (s2 & acc2 & Hst2 & Hq2 & Hg2 & Hf2); try assumption; try lia.
+  { rewrite Hq1. now rewrite !app_nil_r. }
+  { intros k _. now rewrite Hp1. }
+  { intros k Hk Hnk. rewrite Hr1b, Ha1b by exact Hnk. assert (k <> c) by (intro; subst; contradiction).
+    rewrite !alookup_aremove_neq by assumption. rewrite alookup_aset_neq by assumption. apply Hfr. now right. }
+  cbn [split_go app] in Hq2. destruct Hf2 as (Hco2 & [Hrd2 Hrd2'] & [Hca2 Hca2'] & _ & _).
   set (s3 := {| queue := []; parts := aremove c (parts s2); content := content s2 ++ pget s2 c ++ acc2;
                 rend := rend s2; cattrs := cattrs s2 |}).
-  assert (Hstep3 : step s2 = inl s3).
-  { unfold step. rewrite Hq2. reflexivity. }
-  assert (Hrun : steps (2 * S (ninst body)) (init_state tb c body) = Some s3).
-  { replace (2 * S (ninst body))%nat with (1 + (2 * ninst body + 1))%nat by lia.
-    rewrite steps_add. cbn [steps]. rewrite Hstep1. rewrite steps_add, Hst2. cbn [steps]. now rewrite Hstep3. }
+  assert (Hstep3 : forall nest, step nest s2 = Done s3).
+  { intro nest. unfold step. rewrite Hq2. reflexivity. }
+  assert (Hndefb : (ndef body <= ninst body)%nat) by (apply (ndef_le_ninst (tsize body)); lia).
+  assert (Hrun : stepsF (1 + (2 * ndef body + 1)) (S F1) (init_state tb c body) = Some s3).
+  { rewrite stepsF_add. cbn [stepsF]. rewrite Hstep. replace (S F1 - 1)%nat with F1 by lia.
+    rewrite stepsF_add, Hst2. destruct (F1 - 2 * ndef body)%nat as [|F2] eqn:EF; [lia|]. cbn [stepsF].
+    now rewrite Hstep3. }
+  assert (Hs1c : pget s1 c = []) by (unfold pget, aget; now rewrite Hp1).
   exists (rend s3, cattrs s3). split; [|split].
-  - unfold post_render. rewrite (run_of_steps _ _ _ Hrun eq_refl). unfold s3; cbn [content rend cattrs].
-    rewrite Hco2, Hg2. unfold s1 at 1 2; cbn [content]. unfold pget, aget; cbn [parts alookup].
-    rewrite inline_cons, inline_comp. simpl. now rewrite app_nil_r.
-  - unfold s3; cbn [fst rend]. destruct Hrd2 as [Ho Hi]. split.
-    + intros k Hk. rewrite Ho by (intro; apply Hk; now right). unfold s1; cbn [rend].
-      rewrite alookup_aupdate_out.
-      * rewrite alookup_aremove_neq, alookup_aset_neq; try reflexivity; intro; subst; apply Hk; now left.
-      * intro Hi'. apply Hk. right. apply (ph_bodies_in_ids (tsize body) body); [lia | exact Hi'].
-    + intros k [<-|Hk]; [|now apply Hi]. rewrite Ho by exact Hcb. unfold s1; cbn [rend].
-      rewrite alookup_aupdate_out; [apply alookup_aremove_eq|].
-      intro Hi'. apply Hcb. apply (ph_bodies_in_ids (tsize body) body); [lia | exact Hi'].
-  - unfold s3; cbn [snd cattrs]. destruct Hca2 as [Ho Hi]. split.
-    + intros k Hk. rewrite Ho by (intro; apply Hk; now right). unfold s1; cbn [cattrs].
-      rewrite alookup_aupdate_out.
-      * apply alookup_aremove_neq. intro; subst; apply Hk; now left.
-      * rewrite (ph_keys_eq (tsize body) body) by lia.
-        intro Hi'. apply Hk. right. apply (ph_bodies_in_ids (tsize body) body); [lia | exact Hi'].
-    + intros k [<-|Hk]; [|now apply Hi]. rewrite Ho by exact Hcb. unfold s1; cbn [cattrs].
-      rewrite alookup_aupdate_out; [apply alookup_aremove_eq|].
-      rewrite (ph_keys_eq (tsize body) body) by lia.
-      intro Hi'. apply Hcb. apply (ph_bodies_in_ids (tsize body) body); [lia | exact Hi'].
+  - unfold post_render. rewrite (run_of_stepsF _ _ _ _ Hrun eq_refl). unfold s3; cbn [finish content rend cattrs].
+    rewrite Hco2, Hc1, Hg2, Hs1c. reflexivity.
+  - intro k. unfold s3; cbn [fst rend]. destruct (in_dec N.eq_dec k (ids body)) as [Hk|Hk].
+    + rewrite Hrd2' by exact Hk. symmetry. apply Hfr. now right.
+    + rewrite Hrd2 by exact Hk. rewrite Hr1b by (intro Hi; apply Hk; now apply ph_in_ids).
+      destruct (N.eq_dec k c) as [->|Hkc]; [rewrite alookup_aremove_eq; now symmetry|].
+      rewrite alookup_aremove_neq by exact Hkc. now apply alookup_aset_neq.
+  - intro k. unfold s3; cbn [snd cattrs]. destruct (in_dec N.eq_dec k (ids body)) as [Hk|Hk].
+    + rewrite Hca2' by exact Hk. symmetry. apply Hfr. now right.
+    + rewrite Hca2 by exact Hk. rewrite Ha1b by (intro Hi; apply Hk; now apply ph_in_ids).
+      destruct (N.eq_dec k c) as [->|Hkc]; [rewrite alookup_aremove_eq; now symmetry|].
+      now apply alookup_aremove_neq.
+Qed.
+
+Lemma queue_ok : forall n, procs_ok n /\ roots_ok n.
+Proof.
+  induction n as [|n [IHp IHr]].
+  - split.
+    + intros its Hs. destruct its as [|x r]; [apply proc_nil|].
+      rewrite tsize_cons in Hs. pose proof (tsize_item_pos x). lia.
+    + intros c body F Hs. lia.
+  - split; [now apply proc_step | now apply root_of].
+Qed.
+
+Lemma post_render_spec F tb c body :
+  NoDup (c :: ids body) -> fresh (c :: ids body) tb -> (2 * S (ninst body) <= F)%nat ->
+  exists tb', post_render F tb c body = Done (inline [c] body, tb') /\ teq (fst tb) (fst tb') /\ teq (snd tb) (snd tb').
+Proof.
+  intros Hnd Hfr HF. destruct (queue_ok (S (tsize body))) as [_ HQ].
+  exact (HQ c body F (Nat.lt_succ_diag_r _) HF tb Hnd Hfr).
 Qed.
 
 Lemma page_render_cons tb x r :
@@ -529,53 +841,54 @@ Lemma page_item_elem tb t kids :
 Proof. reflexivity. Qed.
 
 Definition page_spec (its : list item) : Prop :=
-  forall tb, NoDup (ids its) -> (forall k, In k (ids its) -> alookup k (snd tb) = None) ->
-  exists tb', page_render tb its = Done (inline [] its, tb') /\
-              same_out (ids its) (fst tb) (fst tb') /\ same_out (ids its) (snd tb) (snd tb').
+  forall tb, NoDup (ids its) -> fresh (ids its) tb ->
+  exists tb', page_render tb its = Done (inline [] its, tb') /\ teq (fst tb) (fst tb') /\ teq (snd tb) (snd tb').
 
 Lemma page_ok : forall n its, (tsize its <= n)%nat -> page_spec its.
 Proof.
   induction n as [|n IH]; intros its Hs.
   { destruct its as [|x r]; [|rewrite tsize_cons in Hs; pose proof (tsize_item_pos x); lia].
-    intros tb _ _. exists tb. repeat split; try reflexivity; intros k []. }
+    intros tb _ _. exists tb. repeat split; reflexivity. }
   destruct its as [|x r].
-  { intros tb _ _. exists tb. repeat split; try reflexivity; intros k []. }
+  { intros tb _ _. exists tb. repeat split; reflexivity. }
   rewrite tsize_cons in Hs. pose proof (tsize_item_pos x) as Hpos.
   intros tb Hnd Hcl. rewrite ids_cons in Hnd, Hcl. apply nodup_app in Hnd as (Hndx & Hndr & Hdis).
   rewrite page_render_cons.
-  assert (Hx : exists tb1, page_item tb x = Done (inline_item [] x, tb1) /\
-                 same_out (ids_item x) (fst tb) (fst tb1) /\ same_out (ids_item x) (snd tb) (snd tb1)).
-  { destruct x as [t kids| |c body].
+  assert (Hx : exists tb1, page_item tb x = Done (inline_item [] x, tb1) /\ teq (fst tb) (fst tb1) /\ teq (snd tb) (snd tb1)).
+  { destruct x as [t kids| |c body|c body].
     - rewrite tsize_elem in Hs. rewrite ids_elem in *.
       destruct (IH kids ltac:(lia) tb Hndx) as (tb1 & Hp & H1 & H2).
       { intros k Hk. apply Hcl, in_or_app; auto. }
       exists tb1. rewrite page_item_elem, Hp. repeat split; try apply H1; try apply H2.
-    - exists tb. repeat split; try reflexivity; intros k [].
+    - exists tb. repeat split; reflexivity.
     - rewrite ids_comp in *.
-      destruct (post_render_spec tb c body Hndx) as (tb1 & Hp & H1 & H2).
-      { apply Hcl. now left. }
+      destruct (post_render_spec (2 * S (ninst body)) tb c body Hndx) as (tb1 & Hp & H1 & H2); [|lia|].
+      { intros k Hk. apply Hcl, in_or_app; auto. }
       exists tb1. split; [|split; assumption].
       change (page_item tb (IComp c body)) with (post_render (2 * S (ninst body)) tb c body).
-      rewrite Hp. rewrite inline_cons. now rewrite app_nil_r. }
+      rewrite Hp. reflexivity.
+    - rewrite ids_root in *.
+      destruct (post_render_spec (2 * S (ninst body)) tb c body Hndx) as (tb1 & Hp & H1 & H2); [|lia|].
+      { intros k Hk. apply Hcl, in_or_app; auto. }
+      exists tb1. split; [|split; assumption].
+      change (page_item tb (IRoot c body)) with (post_render (2 * S (ninst body)) tb c body).
+      rewrite Hp. reflexivity. }
   destruct Hx as (tb1 & Hp1 & Hr1 & Ha1). rewrite Hp1.
   destruct (IH r ltac:(lia) tb1 Hndr) as (tb2 & Hp2 & Hr2 & Ha2).
-  { intros k Hk. destruct Ha1 as [Ho _]. rewrite Ho by (intro Hk'; exact (Hdis k Hk' Hk)).
-    apply Hcl, in_or_app; auto. }
+  { intros k Hk. rewrite Hr1, Ha1. apply Hcl, in_or_app; auto. }
   rewrite Hp2. exists tb2. split; [now rewrite inline_cons|].
-  split; eapply same_out_trans; eassumption.
+  split; intro k; [now rewrite Hr2, Hr1 | now rewrite Ha2, Ha1].
 Qed.
 
 (* from clean tables a page leaves clean tables *)
 Lemma page_from_empty its :
   NoDup (ids its) -> page_render ([], []) its = Done (inline [] its, ([], [])).
 Proof.
-  intro Hnd. destruct (page_ok (tsize its) its (le_n _) ([], []) Hnd) as ((r & ca) & Hp & [H1 H1'] & [H2 H2']).
-  { reflexivity. }
+  intro Hnd. destruct (page_ok (tsize its) its (le_n _) ([], []) Hnd) as ((r & ca) & Hp & H1 & H2).
+  { intros k _. split; reflexivity. }
   cbn [fst snd] in *. rewrite Hp.
-  assert (r = []) as ->.
-  { apply alookup_all_none_nil. intro k. destruct (in_dec N.eq_dec k (ids its)); [now apply H1' | now rewrite H1]. }
-  assert (ca = []) as ->.
-  { apply alookup_all_none_nil. intro k. destruct (in_dec N.eq_dec k (ids its)); [now apply H2' | now rewrite H2]. }
+  assert (r = []) as -> by (apply alookup_all_none_nil; intro k; now rewrite H1).
+  assert (ca = []) as -> by (apply alookup_all_none_nil; intro k; now rewrite H2).
   reflexivity.
 Qed.
 
@@ -591,11 +904,12 @@ Proof.
   - destruct its as [|x r]; [reflexivity|]. rewrite tsize_cons in Hs. pose proof (tsize_item_pos x). lia.
   - destruct its as [|x r]; [reflexivity|]. rewrite tsize_cons in Hs. pose proof (tsize_item_pos x) as Hp.
     rewrite inlT_cons, inline_cons, toks_app, (IH r) by lia. f_equal.
-    destruct x as [t k| |c b].
+    destruct x as [t k| |c b|c b].
     + rewrite inlT_elem, inline_elem, toks_cons, toks_elem. rewrite tsize_elem in Hs. rewrite (IH k) by lia.
       simpl. now rewrite app_nil_r.
     + reflexivity.
     + rewrite inlT_comp, inline_comp. rewrite tsize_comp in Hs. apply IH. lia.
+    + rewrite inlT_root, inline_root. rewrite tsize_root in Hs. apply IH. lia.
 Qed.
 
 Lemma roots_carry : forall n its A, (tsize its <= n)%nat -> Forall (root_ok A) (inlT A its).
@@ -604,10 +918,13 @@ Proof.
   - destruct its as [|x r]; [constructor|]. rewrite tsize_cons in Hs. pose proof (tsize_item_pos x). lia.
   - destruct its as [|x r]; [constructor|]. rewrite tsize_cons in Hs. pose proof (tsize_item_pos x) as Hp.
     rewrite inlT_cons. apply Forall_app. split; [|apply IH; lia].
-    destruct x as [t k| |c b].
+    destruct x as [t k| |c b|c b].
     + rewrite inlT_elem. constructor; [|constructor]. simpl. apply incl_refl.
     + repeat constructor.
     + rewrite inlT_comp. rewrite tsize_comp in Hs.
+      eapply Forall_impl; [|apply (IH b (A ++ [c])); lia].
+      intros [t a k|]; simpl; [|trivial]. intros Hi x Hx. apply Hi, in_or_app. now left.
+    + rewrite inlT_root. rewrite tsize_root in Hs.
       eapply Forall_impl; [|apply (IH b (A ++ [c])); lia].
       intros [t a k|]; simpl; [|trivial]. intros Hi x Hx. apply Hi, in_or_app. now left.
 Qed.
@@ -635,12 +952,15 @@ Proof.
   - destruct its as [|x r]; [reflexivity|]. rewrite tsize_cons in Hs. pose proof (tsize_item_pos x) as Hp.
     rewrite ids_cons in Hi. rewrite inlT_cons, carrying_app.
     rewrite (IH r) by (lia || assumption || (intro; apply Hi, in_or_app; auto)).
-    rewrite Nat.add_0_r. destruct x as [t k| |g b].
+    rewrite Nat.add_0_r. destruct x as [t k| |g b|g b].
     + rewrite inlT_elem, carrying_cons, carrying_elem. rewrite tsize_elem in Hs. rewrite ids_elem in Hi.
       rewrite has_id_false by exact HA.
       rewrite (IH k) by (lia || (intros []) || (intro; apply Hi, in_or_app; auto)). reflexivity.
     + reflexivity.
     + rewrite inlT_comp. rewrite tsize_comp in Hs. rewrite ids_comp in Hi. apply IH; [lia | |].
+      * intro H. apply in_app_or in H as [H|[H|[]]]; [contradiction | subst; apply Hi, in_or_app; left; now left].
+      * intro H. apply Hi, in_or_app. left. now right.
+    + rewrite inlT_root. rewrite tsize_root in Hs. rewrite ids_root in Hi. apply IH; [lia | |].
       * intro H. apply in_app_or in H as [H|[H|[]]]; [contradiction | subst; apply Hi, in_or_app; left; now left].
       * intro H. apply Hi, in_or_app. left. now right.
 Qed.
@@ -654,13 +974,16 @@ Proof.
   - destruct its as [|x r]; [reflexivity|]. rewrite tsize_cons in Hs. pose proof (tsize_item_pos x) as Hp.
     rewrite ids_cons in Hi. rewrite inlT_cons, carrying_app, top_elems_app.
     rewrite (IH r c A) by (lia || assumption || (intro; apply Hi, in_or_app; auto)).
-    f_equal. destruct x as [t k| |g b].
+    f_equal. destruct x as [t k| |g b|g b].
     + rewrite inlT_elem, carrying_cons, carrying_elem. rewrite tsize_elem in Hs. rewrite ids_elem in Hi.
       assert (E : has_id c A = true) by (now apply has_id_in). rewrite E.
       rewrite (carrying_absent (tsize k) k c []) by (lia || (intros []) || (intro; apply Hi, in_or_app; auto)).
       reflexivity.
     + reflexivity.
     + rewrite inlT_comp. rewrite tsize_comp in Hs. rewrite ids_comp in Hi. apply IH; [lia | |].
+      * apply in_or_app. now left.
+      * intro H. apply Hi, in_or_app. left. now right.
+    + rewrite inlT_root. rewrite tsize_root in Hs. rewrite ids_root in Hi. apply IH; [lia | |].
       * apply in_or_app. now left.
       * intro H. apply Hi, in_or_app. left. now right.
 Qed.
@@ -672,11 +995,15 @@ Proof.
   - destruct its as [|x r]; [reflexivity|]. rewrite tsize_cons in Hs. pose proof (tsize_item_pos x) as Hp.
     rewrite ids_cons in Hi. rewrite outputs_cons.
     rewrite (IH r) by (lia || (intro; apply Hi, in_or_app; auto)). rewrite app_nil_r.
-    destruct x as [t k| |g b].
+    destruct x as [t k| |g b|g b].
     + rewrite outputs_elem. rewrite tsize_elem in Hs. rewrite ids_elem in Hi. apply IH; [lia|].
       intro; apply Hi, in_or_app; auto.
     + reflexivity.
     + rewrite outputs_comp. rewrite tsize_comp in Hs. rewrite ids_comp in Hi.
+      destruct (N.eqb c g) eqn:E.
+      * apply N.eqb_eq in E. subst. exfalso. apply Hi, in_or_app. left. now left.
+      * simpl. apply IH; [lia|]. intro H. apply Hi, in_or_app. left. now right.
+    + rewrite outputs_root. rewrite tsize_root in Hs. rewrite ids_root in Hi.
       destruct (N.eqb c g) eqn:E.
       * apply N.eqb_eq in E. subst. exfalso. apply Hi, in_or_app. left. now left.
       * simpl. apply IH; [lia|]. intro H. apply Hi, in_or_app. left. now right.
@@ -701,7 +1028,7 @@ Proof.
       assert (Hr : ~ In c (ids r)) by (now apply Hdis).
       rewrite (outputs_absent (tsize r) r) by (lia || assumption). rewrite app_nil_r.
       rewrite (carrying_absent (tsize r) r) by (lia || assumption). rewrite Nat.add_0_r.
-      destruct x as [t k| |g b].
+      destruct x as [t k| |g b|g b].
       * rewrite outputs_elem, inlT_elem, carrying_cons, carrying_elem. rewrite tsize_elem in Hs. rewrite ids_elem in *.
         rewrite has_id_false by exact HA.
         destruct (IH k c [] ltac:(lia) Hndx (fun f => f) Hi) as (B & out & Ho & Hf & Hc).
@@ -718,23 +1045,40 @@ Proof.
         -- apply N.eqb_neq in E. destruct Hi as [Hi|Hi]; [congruence|]. simpl app.
            apply (IH b c (A ++ [g])); [lia | exact Hndb | | exact Hi].
            intro H. apply in_app_or in H as [H|[H|[]]]; [contradiction | congruence].
+      * rewrite outputs_root, inlT_root. rewrite tsize_root in Hs. rewrite ids_root in *.
+        inversion Hndx as [|? ? Hgb Hndb]; subst.
+        destruct (N.eqb c g) eqn:E.
+        -- apply N.eqb_eq in E. subst g.
+           rewrite (outputs_absent (tsize b) b) by (lia || assumption).
+           exists A, (inlT (A ++ [c]) b). split; [reflexivity|]. split.
+           ++ apply (roots_carry (tsize b)). lia.
+           ++ apply (carrying_inherited (tsize b)); [lia | apply in_or_app; right; now left | exact Hgb].
+        -- apply N.eqb_neq in E. destruct Hi as [Hi|Hi]; [congruence|]. simpl app.
+           apply (IH b c (A ++ [g])); [lia | exact Hndb | | exact Hi].
+           intro H. apply in_app_or in H as [H|[H|[]]]; [contradiction | congruence].
     + (* the instance is inside r *)
       assert (Hx : ~ In c (ids_item x)) by (intro Hx; exact (Hdis c Hx Hi)).
       destruct (IH r c A ltac:(lia) Hndr HA Hi) as (B & out & Ho & Hf & Hc).
       exists B, out. rewrite Ho, Hc. split; [|split; [exact Hf|]].
-      * destruct x as [t k| |g b].
+      * destruct x as [t k| |g b|g b].
         -- rewrite outputs_elem. rewrite tsize_elem in Hs. rewrite ids_elem in Hx.
            now rewrite (outputs_absent (tsize k) k) by (lia || assumption).
         -- reflexivity.
         -- rewrite outputs_comp. rewrite tsize_comp in Hs. rewrite ids_comp in Hx.
            destruct (N.eqb c g) eqn:E; [apply N.eqb_eq in E; subst; exfalso; apply Hx; now left|].
            rewrite (outputs_absent (tsize b) b); [reflexivity | lia | intro; apply Hx; now right].
-      * destruct x as [t k| |g b].
+        -- rewrite outputs_root. rewrite tsize_root in Hs. rewrite ids_root in Hx.
+           destruct (N.eqb c g) eqn:E; [apply N.eqb_eq in E; subst; exfalso; apply Hx; now left|].
+           rewrite (outputs_absent (tsize b) b); [reflexivity | lia | intro; apply Hx; now right].
+      * destruct x as [t k| |g b|g b].
         -- rewrite inlT_elem, carrying_cons, carrying_elem. rewrite tsize_elem in Hs. rewrite ids_elem in Hx.
            rewrite has_id_false by exact HA.
            rewrite (carrying_absent (tsize k) k c []) by (lia || (intros []) || assumption). reflexivity.
         -- reflexivity.
         -- rewrite inlT_comp. rewrite tsize_comp in Hs. rewrite ids_comp in Hx.
+           rewrite (carrying_absent (tsize b) b); [reflexivity | lia | | intro; apply Hx; now right].
+           intro H. apply in_app_or in H as [H|[H|[]]]; [contradiction | subst; apply Hx; now left].
+        -- rewrite inlT_root. rewrite tsize_root in Hs. rewrite ids_root in Hx.
            rewrite (carrying_absent (tsize b) b); [reflexivity | lia | | intro; apply Hx; now right].
            intro H. apply in_app_or in H as [H|[H|[]]]; [contradiction | subst; apply Hx; now left].
 Qed.
@@ -776,41 +1120,56 @@ Lemma seqM_good {A} (f : A -> N -> xres) (l : list A) :
 Proof.
   induction l as [|a r IH]; intros Hf nx its n1 H; simpl in H.
   - inversion H; subst. apply good_nil.
-  - destruct (f a nx) as [x m| |] eqn:E1; try discriminate.
-    destruct (seqM f r m) as [y m2| |] eqn:E2; try discriminate.
+  - destruct (f a nx) as [x m| | |] eqn:E1; try discriminate.
+    destruct (seqM f r m) as [y m2| | |] eqn:E2; try discriminate.
     inversion H; subst. eapply good_app.
     + eapply Hf; [now left | exact E1].
     + eapply IH; [|exact E2]. intros. eapply Hf; [right|]; eassumption.
 Qed.
 
-Lemma expand_good : forall fuel lb e t nx its n1, expand fuel lb e t nx = XOk its n1 -> good nx its n1.
+Lemma ids_mk k c b : ids_item (mk_inst k c b) = c :: ids b.
+Proof. destruct k; reflexivity. Qed.
+
+Lemma expand_good : forall fuel lb io e kd t nx its n1, expand fuel lb io e kd t nx = XOk its n1 -> good nx its n1.
 Proof.
-  induction fuel as [|f IH]; intros lb e t nx its n1 H; [discriminate|].
-  destruct t as [tag kids| |name dyn fill|dflt|n body]; cbn [expand] in H.
-  - destruct (seqM (expand f lb e) kids nx) as [k m| |] eqn:E; try discriminate. inversion H; subst.
+  induction fuel as [|f IH]; intros lb io e kd t nx its n1 H; [discriminate|].
+  destruct t as [tag kids| |name dyn fills|name dflt|n body|c body|name]; cbn [expand] in H.
+  - destruct (seqM (expand f lb io e kd) kids nx) as [k m| | |] eqn:E; try discriminate. inversion H; subst.
     assert (G : good nx k n1) by (eapply seqM_good; [|exact E]; intros; eapply IH; eassumption).
     destruct G as (G1 & G2 & G3). unfold good. rewrite ids_cons, ids_elem, app_nil_r. auto.
   - inversion H; subst. split; [lia|]. split; [intros k []|constructor].
   - destruct (alookup name lb) as [body|]; [|discriminate].
     destruct dyn.
-    + destruct (seqM _ body (nx + 2)%N) as [k m| |] eqn:E; try discriminate. inversion H; subst.
+    + destruct (seqM _ body (nx + 2)%N) as [k m| | |] eqn:E; try discriminate. inversion H; subst.
       assert (G : good (nx + 2) k n1) by (eapply seqM_good; [|exact E]; intros; eapply IH; eassumption).
       destruct G as (G1 & G2 & G3). unfold good.
-      rewrite ids_cons, ids_comp, ids_cons, ids_comp. simpl (ids []). rewrite !app_nil_r.
+      rewrite ids_cons, ids_mk, ids_cons, ids_mk. simpl (ids []). rewrite !app_nil_r.
       split; [lia|]. split.
       * intros j [<-|[<-|Hj]]; [lia | lia | apply G2 in Hj; lia].
       * constructor; [intros [Hj|Hj]; [lia | apply G2 in Hj; lia]|].
         constructor; [intro Hj; apply G2 in Hj; lia | exact G3].
-    + destruct (seqM _ body (nx + 1)%N) as [k m| |] eqn:E; try discriminate. inversion H; subst.
+    + destruct (seqM _ body (nx + 1)%N) as [k m| | |] eqn:E; try discriminate. inversion H; subst.
       assert (G : good (nx + 1) k n1) by (eapply seqM_good; [|exact E]; intros; eapply IH; eassumption).
       destruct G as (G1 & G2 & G3). unfold good.
-      rewrite ids_cons, ids_comp. simpl (ids []). rewrite !app_nil_r.
+      rewrite ids_cons, ids_mk. simpl (ids []). rewrite !app_nil_r.
       split; [lia|]. split.
       * intros j [<-|Hj]; [lia | apply G2 in Hj; lia].
       * constructor; [intro Hj; apply G2 in Hj; lia | exact G3].
-  - destruct e as [|b eo]; (eapply seqM_good; [|exact H]; intros; eapply IH; eassumption).
+  - destruct kd; [|discriminate].
+    destruct e as [|fl eo kf]; [eapply seqM_good; [|exact H]; intros; eapply IH; eassumption|].
+    destruct (alookup name fl) as [b|]; (eapply seqM_good; [|exact H]; intros; eapply IH; eassumption).
   - eapply seqM_good; [|exact H]. intros a nx' its' n1' _ H'.
     eapply seqM_good; [|exact H']. intros; eapply IH; eassumption.
+  - destruct c; [eapply seqM_good; [|exact H]; intros; eapply IH; eassumption|].
+    inversion H; subst. apply good_nil.
+  - destruct (alookup name lb) as [body|]; [|discriminate].
+    destruct (seqM _ body (nx + 1)%N) as [k m| | |] eqn:E; try discriminate. inversion H; subst.
+    assert (G : good (nx + 1) k n1) by (eapply seqM_good; [|exact E]; intros; eapply IH; eassumption).
+    destruct G as (G1 & G2 & G3). unfold good.
+    rewrite ids_cons, ids_root. simpl (ids []). rewrite !app_nil_r.
+    split; [lia|]. split.
+    * intros j [<-|Hj]; [lia | apply G2 in Hj; lia].
+    * constructor; [intro Hj; apply G2 in Hj; lia | exact G3].
 Qed.
 
 Lemma expand_page_good fuel p its n : expand_page fuel p = XOk its n -> good 0%N its n.
@@ -829,13 +1188,14 @@ Proof. exact page_from_empty. Qed.
 Lemma inline_is_tree_lemma : forall A its, toks (inlT A its) = inline A its.
 Proof. intros A its. apply (toks_inlT (tsize its)). lia. Qed.
 
-Lemma root_run_lemma : forall tb c body,
-  NoDup (c :: ids body) -> alookup c (snd tb) = None ->
-  exists tb', post_render (2 * ninst [IComp c body]) tb c body = Done (inline [] [IComp c body], tb') /\
-              same_out (c :: ids body) (fst tb) (fst tb') /\ same_out (c :: ids body) (snd tb) (snd tb').
+Lemma root_run_lemma : forall F tb c body,
+  NoDup (c :: ids body) -> fresh (c :: ids body) tb -> (2 * ninst [IRoot c body] <= F)%nat ->
+  exists tb', post_render F tb c body = Done (inline [] [IRoot c body], tb') /\
+              teq (fst tb) (fst tb') /\ teq (snd tb) (snd tb').
 Proof.
-  intros tb c body H1 H2. destruct (post_render_spec tb c body H1 H2) as (tb' & H).
-  exists tb'. rewrite ninst_cons, ninst_comp. simpl (ninst []). rewrite Nat.add_0_r. exact H.
+  intros F tb c body H1 H2 HF. rewrite ninst_cons, ninst_root in HF. simpl (ninst []) in HF.
+  destruct (post_render_spec F tb c body H1 H2 ltac:(lia)) as (tb' & H).
+  exists tb'. rewrite inline_cons, inline_root. simpl. rewrite app_nil_r. exact H.
 Qed.
 
 Lemma roots_and_only_roots_lemma : forall its c,
